@@ -146,20 +146,27 @@ fn gen_paren(cst: &Cst<'_>, node_ref: NodeRef, items: &mut PrintItems) {
     items.push_info(start_ln);
     items.push_anchor(LineNumberAnchor::new(end_ln));
 
+    let mut open = 0;
     for child_node_ref in cst.children(node_ref) {
         match cst.get(child_node_ref) {
             Node::Token(Token::LPar | Token::LBrak, _) => {
                 gen_node(cst, child_node_ref, items);
                 indent(2, items);
+                open += 1;
                 items.push_condition(new_line_if_multiple_lines(start_ln, end_ln));
             }
-            Node::Token(Token::RPar | Token::RBrak, _) => {
+            Node::Token(Token::RPar | Token::RBrak, _) if open > 0 => {
                 dedent(2, items);
+                open -= 1;
                 items.push_condition(new_line_if_multiple_lines(start_ln, end_ln));
                 gen_node(cst, child_node_ref, items);
             }
             _ => gen_node(cst, child_node_ref, items),
         }
+    }
+    // the closing bracket may be missing in an erroneous file
+    for _ in 0..open {
+        dedent(2, items);
     }
     items.push_info(end_ln);
 }
@@ -324,11 +331,13 @@ fn gen_rule_decl(cst: &Cst<'_>, node_ref: NodeRef, items: &mut PrintItems) {
 
         let mut semi_cond = new_line_if_multiple_lines(start_ln, end_ln);
         let semi_cond_reeval = semi_cond.create_reevaluation();
+        let mut open = 0;
         for child_node_ref in children {
             match cst.get(child_node_ref) {
                 Node::Token(Token::Colon, _) => {
                     gen_node(cst, child_node_ref, items);
                     indent(2, items);
+                    open += 1;
                     items.push_condition(
                         conditions::new_line_if_multiple_lines_space_or_new_line_otherwise(
                             start_ln,
@@ -336,13 +345,18 @@ fn gen_rule_decl(cst: &Cst<'_>, node_ref: NodeRef, items: &mut PrintItems) {
                         ),
                     );
                 }
-                Node::Token(Token::Semi, _) => {
+                Node::Token(Token::Semi, _) if open > 0 => {
                     dedent(2, items);
+                    open -= 1;
                     items.push_condition(semi_cond.clone());
                     gen_node(cst, child_node_ref, items);
                 }
                 _ => gen_node(cst, child_node_ref, items),
             }
+        }
+        // the semicolon may be missing in an erroneous file
+        for _ in 0..open {
+            dedent(2, items);
         }
         items.push_info(end_ln);
         items.push_reevaluation(semi_cond_reeval);
